@@ -74,6 +74,9 @@ def gen_case(rng):
             if "gene" not in kind:
                 pool = pool + ["LEAK"]
     case["_pool"] = pool
+    case["history"] = rng.choice([None, None, "optimize", "deletion", "ctx_solve", "ctx_infeasible"])
+    if kind.startswith("essential"):
+        case["history"] = rng.choice([None, "deletion", "ctx_solve", "low_growth_deletion", "low_growth_deletion", "same_call", "same_call"])
     # state the model is in before the analysis: genes already non-functional (flag only, or properly knocked out)
     if genes and rng.random() < 0.35:
         g = rng.choice(genes)
@@ -134,6 +137,25 @@ def check_case(case):
             if l is None:
                 return None
             return [dl.get_by_id(x) for x in l] if case["as_objects"] else list(l)
+        # what the same model object went through before the analysis: solves in another state leave their status, objective value and primal values in
+        # the solver (the model itself is as before)
+        hist = case.get("history")
+        try:
+            if hist == "optimize":
+                m.optimize()
+            elif hist == "deletion" and pool:
+                (single_gene_deletion if genes else single_reaction_deletion)(m, [pool[-1]], processes=1)
+            elif hist == "ctx_solve":
+                with m:
+                    for r in list(m.reactions)[:2]:
+                        r.bounds = (max(r.lower_bound, -1.0) if r.lower_bound < 0 else r.lower_bound / 4, r.upper_bound / 4 if r.upper_bound > 0 else r.upper_bound)
+                    m.slim_optimize()
+            elif hist == "ctx_infeasible":
+                with m:
+                    m.reactions[0].bounds = (m.reactions[0].upper_bound + 1, m.reactions[0].upper_bound + 2)
+                    m.slim_optimize()
+        except Exception:
+            pass
         if kind.startswith("essential"):
             thr = case["threshold"]
             if thr is None and sign * wt["value"] <= 0:
@@ -151,6 +173,16 @@ def check_case(case):
                     elif g < threshold:
                         want.add(x)
             f = find_essential_genes if genes else find_essential_reactions
+            try:
+                if hist == "low_growth_deletion":
+                    # the last thing the solver did before the search: the deletion with the smallest growth that still has an optimum
+                    opt = [(sign * c["value"], x) for x, c in zip(pool, certs) if c["status"] == "optimal"]
+                    if opt:
+                        (single_gene_deletion if genes else single_reaction_deletion)(m, [min(opt)[1]], processes=1)
+                elif hist == "same_call":
+                    f(m, processes=1)
+            except Exception:
+                pass
             try:
                 tv = None if thr is None else (int(threshold) if case.get("threshold_int") and threshold == int(threshold) else float(threshold))
                 got = {x.id for x in f(m, threshold=tv, processes=1)}
